@@ -25,9 +25,9 @@ theorem alignUp8_mod (x : Nat) : alignUp 8 x % 8 = 0 := by unfold alignUp; omega
 theorem alignUp8_id (x : Nat) (h : x % 8 = 0) : alignUp 8 x = x := by unfold alignUp; omega
 
 theorem alignUp_ge (a x : Nat) (h : okAlignment a) : x ≤ alignUp a x := by
-  rcases h with rfl | rfl | rfl | rfl | rfl <;> unfold alignUp <;> omega
+  rcases h with rfl | rfl | rfl | rfl | rfl | rfl | rfl <;> unfold alignUp <;> omega
 theorem alignUp_lt (a x : Nat) (h : okAlignment a) : alignUp a x < x + a := by
-  rcases h with rfl | rfl | rfl | rfl | rfl <;> unfold alignUp <;> omega
+  rcases h with rfl | rfl | rfl | rfl | rfl | rfl | rfl <;> unfold alignUp <;> omega
 theorem alignUp_mod (a x : Nat) : alignUp a x % a = 0 := by
   unfold alignUp; exact Nat.mul_mod_left _ _
 
@@ -713,7 +713,7 @@ theorem allocAligned_ok (c : Cfg) (a a' : A) (lives : List Ext) (ts ta ex : Nat)
     AllocPost c a a' lives m ∧ m.ptrOff % ta = 0 ∧ ts + ex ≤ m.ptrSize := by
   have hge := alignUp_ge ta
   have hlt := alignUp_lt ta
-  have hta : 1 ≤ ta := by rcases hr.1 with rfl | rfl | rfl | rfl | rfl <;> omega
+  have hta : 1 ≤ ta := by rcases hr.1 with rfl | rfl | rfl | rfl | rfl | rfl | rfl <;> omega
   unfold A.allocAligned at h
   split at h
   · simp at h
@@ -762,7 +762,7 @@ theorem allocT_ok (c : Cfg) (a a' : A) (lives : List Ext) (ts ta : Nat) (m : Met
     AllocPost c a a' lives m ∧ m.ptrOff % ta = 0 ∧ m.ptrSize = ts := by
   have hge := alignUp_ge ta
   have hlt := alignUp_lt ta
-  have hta : 1 ≤ ta := by rcases hr.1 with rfl | rfl | rfl | rfl | rfl <;> omega
+  have hta : 1 ≤ ta := by rcases hr.1 with rfl | rfl | rfl | rfl | rfl | rfl | rfl <;> omega
   unfold A.allocT at h
   split at h
   · simp at h
